@@ -1,6 +1,6 @@
 ---- MODULE MC_ParallelExec ----
 EXTENDS ParallelExec
 \* exhaustive checker view: the history does not influence behaviour
-ViewNoHist == <<prog, real, disp, dpc, las, wlock, wsnap, sysdep, ph, pc, att, saved, lastAL, lastWL, roCache,
-                latch, rcpt, result>>
+ViewNoHist == <<prog, real, disp, dpc, las, wlock, wsnap, wbase, sysdep, ph, pc, att, saved, lastAL, lastWL, roCache,
+                latch, rcpt, result, cancelled>>
 ====
